@@ -564,3 +564,141 @@ Proof.
     exists ((scan_init_calls sc ++ scan_init_calls sc) ++ List.concat (map fst (scan_polls_spec flt B sc d))).
     rewrite <- !app_assoc. split; reflexivity.
 Qed.
+
+(* ================================================================ C. [batch_pass] IS Model/ScanProj.v's
+   batch loop: same rows, same slots left, pass by pass -- so the batch boundaries of ScanIO's
+   Batch loop (B.) are those of ScanProj.scan_batch_loop over the slots. *)
+
+Section ScanProjLink.
+Variable flt : kvp -> bool.
+Variable B : nat.
+Hypothesis HB : 1 <= B.
+
+(* FilterExec.FilterBatch of a filter that does not fail: one verdict per pair *)
+Definition fbatch_of : list kvp -> Value.res (list bool) := fun c => Value.Ok (map flt c).
+Definition pbatch_id : list kvp -> Value.res (list kvp) := fun c => Value.Ok c.
+
+Lemma select_matches_filter : forall chunk : list kvp,
+  select_matches chunk (map flt chunk) = Value.Ok (filter flt chunk).
+Proof.
+  induction chunk as [|kv chunk IH]; [reflexivity|]. cbn [map select_matches filter]. rewrite IH.
+  cbn [Value.bind]. destruct (flt kv); reflexivity.
+Qed.
+
+Lemma batch_pass_is_scanproj : forall f term rest ret rows log rest' e,
+  List.length rest < f -> batch_pass flt B f term rest ret = (rows, log, rest', e) ->
+  ScanProj.scan_batch_loop fbatch_of f B (map snd rest) ret = Value.Ok (rows, map snd rest').
+Proof.
+  induction f as [|f IH]; intros term rest ret rows log rest' e Hf H; [lia|].
+  cbn [batch_pass ScanProj.scan_batch_loop] in *. rewrite map_length, firstn_map, skipn_map.
+  unfold aslot, kvp, EvalVec.kvpair in *.
+  destruct (somes (map snd (firstn B rest))) as [|kv chunk] eqn:Ech.
+  - cbn [filter] in H. rewrite app_nil_r in H.
+    destruct (List.length rest <? B) eqn:Ee.
+    + injection H as <- <- <- <-. reflexivity.
+    + destruct (batch_pass flt B f term (skipn B rest) ret) as [[[rows1 log1] rest1] e1] eqn:E.
+      injection H as <- <- <- <-. apply Nat.ltb_ge in Ee.
+      eapply IH; [|exact E]. rewrite skipn_length. lia.
+  - unfold fbatch_of at 1. cbn [Value.bind]. rewrite select_matches_filter. cbn [Value.bind].
+    match type of H with (if ?c then _ else _) = _ => destruct c eqn:Efin end;
+      match goal with |- (if ?c then _ else _) = _ => replace c with ((List.length rest <? B) || (B <=? List.length (ret ++ filter flt (kv :: chunk)))) by reflexivity; rewrite Efin end.
+    + injection H as <- <- <- <-. reflexivity.
+    + destruct (batch_pass flt B f term (skipn B rest) (ret ++ filter flt (kv :: chunk))) as [[[rows1 log1] rest1] e1] eqn:E.
+      injection H as <- <- <- <-. apply orb_false_iff in Efin. destruct Efin as [Ee _]. apply Nat.ltb_ge in Ee.
+      eapply IH; [|exact E]. rewrite skipn_length. lia.
+Qed.
+
+Lemma polls_spec_nonempty : forall f silent term rest ended, 0 < f ->
+  polls_spec flt B f silent term rest ended <> [].
+Proof.
+  intros [|f] silent term rest ended H; [lia|]. cbn [polls_spec]. destruct (silent && ended); [discriminate|].
+  destruct (batch_pass flt B (S (List.length rest)) term rest []) as [[[rows log] rest'] e].
+  destruct rows; discriminate.
+Qed.
+
+Lemma removelast_cons : forall (A : Type) (a : A) l, l <> [] -> removelast (a :: l) = a :: removelast l.
+Proof. intros A a [|b l] H; [contradiction|reflexivity]. Qed.
+
+(* Batch() until the empty batch: the batches of [polls_spec] (all polls but the last, which is
+   the empty one) are ScanProj.drain_batch's *)
+Lemma polls_spec_is_drain_batch : forall f silent term (rest : list aslot) ended,
+  List.length rest < f -> (ended = true -> rest = []) ->
+  ScanProj.drain_batch_fuel fbatch_of pbatch_id f B (map snd rest)
+  = Value.Ok (removelast (map snd (polls_spec flt B f silent term rest ended))).
+Proof.
+  induction f as [|f IH]; intros silent term rest ended Hf He; [lia|].
+  cbn [ScanProj.drain_batch_fuel polls_spec]. unfold ScanProj.proj_batch, ScanProj.scan_batch. rewrite map_length.
+  destruct (silent && ended) eqn:Es.
+  - apply andb_true_iff in Es. rewrite (He (proj2 Es)). cbn [map List.length ScanProj.scan_batch_loop firstn skipn somes].
+    replace (0 <? B) with true by (symmetry; apply Nat.ltb_lt; lia). rewrite firstn_nil, skipn_nil. reflexivity.
+  - destruct (batch_pass flt B (S (List.length rest)) term rest []) as [[[rows log] rest'] e] eqn:Ebp.
+    erewrite batch_pass_is_scanproj; [|apply Nat.lt_succ_diag_r|exact Ebp]. cbn [Value.bind].
+    destruct rows as [|r0 rows]; [reflexivity|]. unfold pbatch_id at 1. cbn [Value.bind].
+    pose proof Ebp as M. apply batch_pass_measure in M; [|exact HB]. cbn [List.length] in M.
+    assert (M1 : List.length rest' < List.length rest) by (unfold aslot in *; lia).
+    rewrite (IH silent term rest' e); [|lia|intros E; eapply batch_pass_end; [exact HB|exact Ebp|exact E]].
+    cbn [Value.bind map snd]. rewrite removelast_cons; [reflexivity|].
+    intros E. apply map_eq_nil in E. revert E. apply polls_spec_nonempty. lia.
+Qed.
+
+End ScanProjLink.
+
+Lemma map_snd_ascan_slots : forall sc d, map snd (ascan_slots sc d) = scan_slots sc d.
+Proof.
+  intros sc d. destruct sc as [| |p|[k|] hi|keys]; cbn [ascan_slots scan_slots scan_start];
+    rewrite ?map_map; try reflexivity.
+  rewrite (take_until_never (scan_stop SFull)) by reflexivity. reflexivity.
+Qed.
+
+(* THE BATCH BOUNDARIES AGREE.  The batches Model/ScanProj.v's Batch loop (scan + filter, the
+   projection being the identity) cuts the slots of a scan into are exactly the non-final polls
+   of [scan_polls_spec], i.e. (scan_polls_agree_lemma) the batches ScanIO's scan node returns,
+   Batch() call by Batch() call. *)
+Theorem scan_batches_are_scanproj_lemma : forall (flt : kvp -> bool) (B : nat) (sc : scan) (d : store),
+  1 <= B ->
+  ScanProj.drain_batch (fbatch_of flt) pbatch_id B (scan_slots sc d)
+  = Value.Ok (removelast (map snd (scan_polls_spec flt B sc d))).
+Proof.
+  intros flt B sc d HB. unfold ScanProj.drain_batch. rewrite <- (map_snd_ascan_slots sc d), map_length.
+  assert (G : ScanProj.drain_batch_fuel (fbatch_of flt) pbatch_id (S (List.length (ascan_slots sc d))) B (map snd (ascan_slots sc d))
+              = Value.Ok (removelast (map snd (polls_spec flt B (S (S (List.length (ascan_slots sc d)))) (scan_silent sc)
+                                                              (scan_term sc d) (ascan_slots sc d) false)))).
+  { rewrite (@polls_spec_fuel flt B HB (S (S (List.length (ascan_slots sc d)))) (S (List.length (ascan_slots sc d)))) by lia.
+    apply polls_spec_is_drain_batch; [exact HB|lia|discriminate]. }
+  destruct sc as [| |p|lo hi|keys]; try exact G.
+  cbn. unfold ScanProj.proj_batch, ScanProj.scan_batch. cbn [List.length ScanProj.scan_batch_loop].
+  rewrite firstn_nil, skipn_nil. cbn [somes]. replace (0 <? B) with true by (symmetry; apply Nat.ltb_lt; lia). reflexivity.
+Qed.
+
+(* ================================================================ D. what IS guaranteed about the
+   lengths: a Batch() call that did not see the end of the scan returns at least B rows and fewer
+   than 2B; the call that sees the end returns what is left (possibly fewer than B, possibly
+   none); hence every batch but the last NON-EMPTY one has between B and 2B-1 rows.  (A filter
+   that rejects whole chunks or listed keys that are absent make the call read on: they never
+   produce a short batch in the middle.) *)
+Lemma batch_pass_length : forall flt B, 1 <= B -> forall f term rest ret rows log rest' e,
+  List.length rest < f -> List.length ret < B ->
+  batch_pass flt B f term rest ret = (rows, log, rest', e) ->
+  List.length rows < 2 * B /\ (e = false -> B <= List.length rows).
+Proof.
+  intros flt B HB. induction f as [|f IH]; intros term rest ret rows log rest' e Hf Hr H; [lia|].
+  cbn [batch_pass] in H.
+  unfold aslot, kvp, EvalVec.kvpair in *.
+  assert (Hc0 : List.length (somes (map snd (firstn B rest))) <= B).
+  { etransitivity; [apply somes_length_le|]. rewrite map_length, firstn_length. lia. }
+  destruct (somes (map snd (firstn B rest))) as [|kv chunk] eqn:Ech.
+  - cbn [filter] in H. rewrite app_nil_r in H. destruct (List.length rest <? B) eqn:Ee.
+    + injection H as <- <- <- <-. split; [lia|discriminate].
+    + destruct (batch_pass flt B f term (skipn B rest) ret) as [[[rows1 log1] rest1] e1] eqn:E.
+      injection H as <- <- <- <-. apply Nat.ltb_ge in Ee. eapply IH; [| |exact E]; [rewrite skipn_length; lia|exact Hr].
+  - match type of H with (if ?c then _ else _) = _ => destruct c eqn:Efin end.
+    + pose proof (filter_length_le flt (kv :: chunk)) as Hc.
+      injection H as <- <- <- <-. rewrite app_length.
+      change (if flt kv then kv :: filter flt chunk else filter flt chunk) with (filter flt (kv :: chunk)).
+      split; [lia|].
+      intros Ee. rewrite Ee in Efin. cbn [orb] in Efin. apply Nat.leb_le in Efin. rewrite app_length in Efin. exact Efin.
+    + destruct (batch_pass flt B f term (skipn B rest) (ret ++ filter flt (kv :: chunk))) as [[[rows1 log1] rest1] e1] eqn:E.
+      injection H as <- <- <- <-. apply orb_false_iff in Efin. destruct Efin as [Ee El].
+      apply Nat.ltb_ge in Ee. apply Nat.leb_gt in El.
+      eapply IH; [| |exact E]; [rewrite skipn_length; lia|exact El].
+Qed.
